@@ -560,6 +560,7 @@ pub fn c09_image_y(ci: &CleanImage, r: &mut Rng, all_values: bool, stats: &mut C
 
 #[derive(Default)]
 pub struct C10Stats {
+    pub cuts_with_smaller_limits: u64,
     pub opens: u64,
     pub cuts: u64,
     pub zero_tails: u64,
@@ -791,6 +792,18 @@ pub fn c10_image(ci: &CleanImage, r: &mut Rng, stats: &mut C10Stats, out_viols: 
         let desc = json!({"cut_newest_chunk_at": c, "last_complete_record_ends_at": good});
         let do_cont = thorough || on_boundary || c % 7 == 0;
         push(c10_enabled(ci, &idir, &m, good, desc.clone(), stats, r, do_cont), out_viols);
+        // "configurations may differ between runs": a sixth of the cuts are also recovered by a store configured with
+        // much smaller chunk limits than the one that wrote the image (smaller than the torn record itself)
+        if r.chance(1, 6) {
+            let mut cfg2 = ci.cfg.clone();
+            cfg2.max_size = Some(*r.pick(&[1usize, 20, 100]));
+            cfg2.max_records = Some(*r.pick(&[1usize, 2, 1000]));
+            let ci2 = CleanImage { img: ci.img.clone(), cfg: cfg2, state: ci.state.clone(), entries: ci.entries.clone(), ops: vec![], leftover: vec![] };
+            let mut d2 = desc.clone();
+            d2["recovered_with_chunk_limits"] = json!([ci2.cfg.max_records, ci2.cfg.max_size]);
+            stats.cuts_with_smaller_limits += 1;
+            push(c10_enabled(&ci2, &idir, &m, good, d2, stats, r, false), out_viols);
+        }
         push(c10_disabled(ci, &idir, &m, !on_boundary, desc, stats), out_viols);
     }
     // zero tails from every record boundary
@@ -944,6 +957,7 @@ pub fn run_shard(ctx: &mut Ctx) {
     } else {
         ctx.out.count("opens", s10.opens);
         ctx.out.count("cut_positions", s10.cuts);
+        ctx.out.count("cuts_also_recovered_under_much_smaller_chunk_limits", s10.cuts_with_smaller_limits);
         ctx.out.count("zero_tail_images", s10.zero_tails);
         ctx.out.count("cases_with_truncation_disabled", s10.disabled_cases);
         ctx.out.count("continuations(5_writes+flush+restart)", s10.continuations);
